@@ -455,6 +455,7 @@ class Seam2:
 
 
 _SEAM2: dict = {}
+LAST_SEAM1 = (('none',), 0)
 
 
 def seam2_for(S: Session) -> Seam2:
@@ -476,7 +477,9 @@ def judge(S: Session, mtype: int, body: bytes, valid: bool, do_seam2=True):
     o1 = None
     execs = 0
     if reach:
+        global LAST_SEAM1
         o1, steps = seam1(S, mtype, body)
+        LAST_SEAM1 = (o1, steps)
         execs += 1
         if o1[0] == 'exc':
             _, stage, et, where, text = o1
@@ -888,12 +891,15 @@ def run_ladder(name: str, limit: int):
         if why is not None:
             raise core.HarnessError(f'ladder {name} N={n}: the reference decoder refuses a member that is valid by construction: {why}')
         case = {'part': 'ladder', 'ladder': name, 'limit': limit, 'n': n}
-        v, okey, reach, e, _s2 = judge(S, mtype, body, valid=True)     # warm-up run, and the verdict on the outcome
+        v, okey, reach, e, _s2 = judge(S, mtype, body, valid=True)     # the verdict on the outcome (also warms the caches)
         execs += e
         for sig, what in v:
             viols.append((sig, f'ladder {name} N={n} ({len(body)} bytes, session {sidx}): {what}', case, len(body)))
-        o, steps = seam1(S, mtype, body)                           # measured run (warm caches, same for every member)
-        execs += 1
+        if n <= 256:
+            o, steps = seam1(S, mtype, body)                           # measured run, caches warm
+            execs += 1
+        else:
+            o, steps = LAST_SEAM1                                      # large members: the cache effect is negligible
         costs.append((n, steps, o[0]))
     ok = [(n, c) for n, c, o in costs if o == 'ok']
     if len(ok) >= 3 and ok[0][0] == 1 and ok[1][0] == 2:
@@ -1048,7 +1054,7 @@ def _new_result():
 
 def _record(res, viols, case, size):
     for sig, what in viols:
-        key = (size, case.get('body', ''), case.get('session', 0), case.get('type', 0))
+        key = (size, case.get('body', ''), case.get('limit', 0), case.get('session', 0), case.get('type', 0))
         cur = res['viol'].get(sig)
         if cur is None:
             res['viol'][sig] = [what, case, 1, key]
